@@ -16,6 +16,7 @@ import Drv.C07
 import Drv.C08
 import Drv.WalW
 import Drv.Links
+import Drv.KvNode
 /-! `drv <model>`: executable models behind a one-line-in, one-line-out protocol. -/
 def main (args : List String) : IO UInt32 := do
   match args with
@@ -40,4 +41,6 @@ def main (args : List String) : IO UInt32 := do
   | ["c08"] => Drv.loop Drv.C08.step (Drv.C08.init, []); return 0
   | ["walw"] => Drv.WalW.main; return 0
   | ["links"] => Drv.Links.main; return 0
+  | ["kvnode"] => Drv.KvNode.main; return 0
+  | ["kvnode-trace"] => Drv.KvNode.main true; return 0
   | _ => IO.eprintln "usage: drv <model>"; return 2
